@@ -12,7 +12,12 @@
 #include <type_traits>
 rlbox_load_structs_from_library(vlib);
 
-using Cfg = mb::cfg<uint16_t, mb::abi_lp32, mb::MASK, 4>;
+// pointer representation of the model backend: 16-bit by default; engine G reruns grids with -DG_PTR_T=uint64_t
+// (pointer-wide representation: same size as a host pointer, so width-keyed shortcuts in the library are reachable)
+#ifndef G_PTR_T
+#  define G_PTR_T uint16_t
+#endif
+using Cfg = mb::cfg<G_PTR_T, mb::abi_lp32, mb::MASK, 4, false, 16>;
 using SB = mb::mbox<Cfg>;
 using sbx_t = rlbox::rlbox_sandbox<SB>;
 template<class T>
@@ -162,8 +167,8 @@ int g_take_struct(VS);
 long g_ret_long();
 int gfn(long);
 static int32_t guest_g_take_int(int32_t) { return 0; }
-static int32_t guest_g_take_ptr(uint16_t) { return 0; }
-static int32_t guest_g_take_fn(uint16_t) { return 0; }
+static int32_t guest_g_take_ptr(G_PTR_T) { return 0; }
+static int32_t guest_g_take_fn(G_PTR_T) { return 0; }
 static int32_t guest_g_take_struct(rlbox::Sbx_vlib_VS<SB>) { return 0; }
 static int32_t guest_g_ret_long() { return 0; }
 static int32_t guest_gfn(int32_t) { return 0; }
